@@ -241,7 +241,9 @@ func normaliseRound(repoDir string, orig, cur *packages.Package, overlay map[str
 		switch {
 		case fd.Name.Name == "main" || fd.Name.Name == "init":
 			in.why[obj] = "entry point"
-		case testNames[fd.Name.Name]:
+		case testNames[fd.Name.Name] && (fd.Recv == nil || testNames[strings.SplitN(key, ".", 2)[0]]):
+			// (a method is part of the suite's vocabulary only if its receiver type is: `Write`
+			// or `Read` on a type no test mentions is not the `Write` the tests call)
 			in.why[obj] = "named by a test file"
 		case fd.Type.TypeParams != nil && len(fd.Type.TypeParams.List) > 0:
 			in.why[obj] = "generic"
@@ -1283,10 +1285,25 @@ func (in *inliner) expand(ce *ast.CallExpr, g *types.Func, lhs []ast.Expr, tok t
 			reg = append(reg, &ast.AssignStmt{Lhs: []ast.Expr{ast.NewIdent(ft)}, Tok: token.ASSIGN, Rhs: []ast.Expr{cds.Call.Fun}})
 			call.Fun = ast.NewIdent(ft)
 		case *ast.SelectorExpr:
-			if in.info.Selections[fx] != nil {
+			if sel := in.info.Selections[fx]; sel != nil {
 				rt := flag + "r"
-				pre = append(pre, declVar(rt, in.info.TypeOf(fx.X), nil))
-				reg = append(reg, &ast.AssignStmt{Lhs: []ast.Expr{ast.NewIdent(rt)}, Tok: token.ASSIGN, Rhs: []ast.Expr{cds.Call.Fun.(*ast.SelectorExpr).X}})
+				xT := in.info.TypeOf(fx.X)
+				var saved ast.Expr = cds.Call.Fun.(*ast.SelectorExpr).X
+				// a pointer-receiver method on an addressable value (`defer mu.Unlock()`,
+				// `defer cache.Unlock()` with an embedded mutex): what the defer statement saves
+				// is the ADDRESS of the operand - a copy of the value would be another object
+				if mf, isF := sel.Obj().(*types.Func); isF {
+					if msig, isSig := mf.Type().(*types.Signature); isSig && msig.Recv() != nil {
+						_, wantPtr := msig.Recv().Type().(*types.Pointer)
+						_, havePtr := xT.Underlying().(*types.Pointer)
+						if wantPtr && !havePtr {
+							xT = types.NewPointer(xT)
+							saved = &ast.UnaryExpr{Op: token.AND, X: saved}
+						}
+					}
+				}
+				pre = append(pre, declVar(rt, xT, nil))
+				reg = append(reg, &ast.AssignStmt{Lhs: []ast.Expr{ast.NewIdent(rt)}, Tok: token.ASSIGN, Rhs: []ast.Expr{saved}})
 				call.Fun = &ast.SelectorExpr{X: ast.NewIdent(rt), Sel: ast.NewIdent(fx.Sel.Name)}
 			} else {
 				call.Fun = cds.Call.Fun
